@@ -187,6 +187,10 @@ def run_case(case):
                                      'setup_payload': Payload(b'hello')})
         try:
             client = L['Client'](net.ep['client'])
+            timeline = []        # ('recv' | 'sent', frame) at the client, in the order things happened
+            net.dispatched['client'].on_append = lambda d: timeline.append(('recv', d))
+            net.tc.wire = NET.LogList(net.tc.wire)
+            net.tc.wire.on_append = lambda b: timeline.append(('sent', sim.parse_sent(b)))
             obs = Obs()
             kind = case['kind']
             box = {}
@@ -211,6 +215,8 @@ def run_case(case):
                 o = None
             elif kind == 'stream':
                 o = client.request_stream(Payload(b'req'), request_limit=case['limit'])
+                if case.get('take') is not None:
+                    o = o.pipe(ops.take(case['take']))      # unsubscribes from INSIDE on_next of the k-th element
             elif kind == 'channel':
                 up = source(case['up_n'], None, b'u') if case['up_n'] is not None else None
                 o = client.request_channel(Payload(b'req'), request_limit=case['limit'], observable=up)
@@ -257,7 +263,7 @@ def run_case(case):
                 net.loop.tick()
             net.flush(rng)
             credit_check()
-            res.update(events=list(obs.events), handler_events=list(h_obs.events), calls=list(calls), asked=list(asked),
+            res.update(timeline=list(timeline), events=list(obs.events), handler_events=list(h_obs.events), calls=list(calls), asked=list(asked),
                        over=over[:1], disposed=disposed, taps=[dict(t) for t in tap.logs],
                        client_wire=[sim.parse_sent(b) for b in net.tc.wire], server_wire=[sim.parse_sent(b) for b in net.ts.wire],
                        escaped=list(net.loop.exceptions)[:2],
@@ -285,6 +291,29 @@ def oracle(res):
     ev = res['events']
     if res['escaped']:
         bad('exception-escaped', detail=res['escaped'])
+    # wire legality of the Rx requester judged against its own prior receptions: once the responder's terminal frame (COMPLETE,
+    # an element flagged complete, ERROR) has been RECEIVED on a stream the requester opened, a stream requester sends
+    # nothing further on it (a CANCEL written before that reception merely crosses it and is fine)
+    ended = set()
+    for what, f in res.get('timeline', []):
+        sid = f.get('sid')
+        if not sid:
+            continue
+        if what == 'recv' and sid % 2 == 1 and (f['t'] == 'Error' or (f['t'] == 'Payload' and f.get('complete'))):
+            if kind in ('stream', 'response'):
+                ended.add(sid)
+        elif what == 'sent' and sid in ended:
+            bad('requester-sent-a-frame-after-it-had-received-the-terminal-frame', frame=repr(f)[:200])
+            break
+    if case.get('take') is not None and kind == 'stream':
+        k = min(case['take'], case['n'])
+        want = expected_events(case['n'], None)
+        exp = want[:k] + [('completed',)] if case['take'] < case['n'] else want
+        if case['take'] == 0:
+            exp = [('completed',)]
+        if ev != exp:
+            bad('observer-behind-take-saw-something-else', expected=repr(exp)[:300], got=repr(ev)[:300])
+        return out
     if kind in ('stream', 'channel'):
         want = expected_events(case['n'], case['fail_at'])
         if case.get('dispose_after') is None:
@@ -382,7 +411,7 @@ def coq_cases(res):
         seen = []
         for e in seen_src:
             seen.append('ONext %s' % cN(vid(e[1])) if e[0] == 'next' else 'OCompleted' if e[0] == 'completed' else 'OError')
-        if res['case'].get('dispose_after') is not None:
+        if res['case'].get('dispose_after') is not None or res['case'].get('take') is not None:
             continue       # after dispose the observable no longer forwards to the observer (Rx semantics, not the adapter's)
         reqs = [cN(n) for n in t['reqs']]
         if not t['requester'] and reqs:
@@ -433,6 +462,9 @@ def gen_cases(ctx, n):
             hl = rng.choice([1, 2, 3])
             cases.append(dict(ver=c['ver'], kind='channel-core', n=0, limit=1, fail_at=None, dispose_after=None,
                               up_n=hl * rng.randint(1, 3) + rng.choice([0, 0, 1]), h_limit=hl))
+    for ver in ('rx4', 'rx3'):
+        for cnt, k in ((3, 3), (3, 2), (4, 5), (1, 1)):
+            cases.append(dict(ver=ver, kind='stream', n=cnt, limit=rng.choice([1, 2, MAXN]), fail_at=None, dispose_after=None, take=k))
     for i, c in enumerate(cases):
         c.setdefault('factory', False)
         c.setdefault('resp_future', False)
@@ -467,6 +499,23 @@ def disposal_oracle():
             cases.append(dict(ver=ver, kind='channel', n=3, limit=2, fail_at=None, dispose_after=da, up_n=2, h_limit=2))
     out = []
     for c in _fill(cases):
+        out.extend(oracle(run_case(c)))
+    return out
+
+
+def take_oracle():
+    """(used by C08) the Rx stream requester behind take(k), k around the length of the stream and every credit window: what it
+    writes after the responder's terminal frame has been received"""
+    cases = []
+    for ver in ('rx4', 'rx3'):
+        for n in (1, 3, 4):
+            for k in (1, n - 1, n, n + 1):
+                if k < 1:
+                    continue
+                for limit in (1, 2, MAXN):
+                    cases.append(dict(ver=ver, kind='stream', n=n, limit=limit, fail_at=None, dispose_after=None, take=k))
+    out = []
+    for c in _fill(cases, 301):
         out.extend(oracle(run_case(c)))
     return out
 
